@@ -81,7 +81,9 @@ func (m *c17mon) livePending() map[string]string {
 	return out
 }
 
-func (m *c17mon) doMake(id string, long bool, ms int, inner []c17step, where string) {
+// doMake issues a make request.  Requests made by the handler of a firing use the context
+// the emitter was called with, as the service's emitter does (Process -> toTimers -> Add).
+func (m *c17mon) doMake(ctx context.Context, id string, long bool, ms int, inner []c17step, where string) {
 	m.reqMu.Lock()
 	defer m.reqMu.Unlock()
 	m.mu.Lock()
@@ -99,7 +101,7 @@ func (m *c17mon) doMake(id string, long bool, ms int, inner []c17step, where str
 	r.t0 = time.Now()
 	m.mu.Unlock()
 
-	err := m.ts.Add(m.ctx, id, map[string]interface{}{"uid": uid, "id": id}, d)
+	err := m.ts.Add(ctx, id, map[string]interface{}{"uid": uid, "id": id}, d)
 	callEnd := time.Now()
 
 	live := m.livePending()
@@ -162,7 +164,7 @@ func describe(r *c17rec) string {
 	return r.uid + " " + r.state
 }
 
-func (m *c17mon) doCancel(id string, where string) {
+func (m *c17mon) doCancel(ctx context.Context, id string, where string) {
 	m.reqMu.Lock()
 	defer m.reqMu.Unlock()
 	m.mu.Lock()
@@ -171,7 +173,7 @@ func (m *c17mon) doCancel(id string, where string) {
 	seq0 := m.opSeq[id]
 	m.mu.Unlock()
 
-	err := m.ts.Rem(m.ctx, id)
+	err := m.ts.Rem(ctx, id)
 	now := time.Now()
 
 	m.mu.Lock()
@@ -265,9 +267,9 @@ func (m *c17mon) emit(ctx context.Context, msg interface{}) error {
 		}
 		switch st.Op {
 		case "make":
-			m.doMake(st.Id, st.Long, st.Ms, st.Inner, where)
+			m.doMake(ctx, st.Id, st.Long, st.Ms, st.Inner, where)
 		case "cancel":
-			m.doCancel(st.Id, where)
+			m.doCancel(ctx, st.Id, where)
 		}
 	}
 	select {
@@ -420,9 +422,9 @@ func c17Scenario(cfg fw.Config, rec *fw.Rec, i int) {
 		}
 		switch st.Op {
 		case "make":
-			m.doMake(st.Id, st.Long, st.Ms, st.Inner, "outside")
+			m.doMake(m.ctx, st.Id, st.Long, st.Ms, st.Inner, "outside")
 		case "cancel":
-			m.doCancel(st.Id, "outside")
+			m.doCancel(m.ctx, st.Id, "outside")
 		case "sleep":
 			time.Sleep(time.Duration(st.Ms) * time.Millisecond)
 		case "quiesce":
@@ -468,9 +470,9 @@ func c17Racing(cfg fw.Config, rec *fw.Rec, i int) {
 					if rr.Intn(3) == 0 {
 						inner = []c17step{{Op: "cancel", Id: id}, {Op: "make", Id: id, Ms: 1 + rr.Intn(4)}}
 					}
-					m.doMake(id, false, 1+rr.Intn(5), inner, "racing")
+					m.doMake(m.ctx, id, false, 1+rr.Intn(5), inner, "racing")
 				} else {
-					m.doCancel(id, "racing")
+					m.doCancel(m.ctx, id, "racing")
 				}
 				if rr.Intn(2) == 0 {
 					time.Sleep(time.Duration(rr.Intn(3000)) * time.Microsecond)
